@@ -137,6 +137,10 @@ MovesWinS(h, kn) ==
         \o (IF t.part # <<>> THEN <<MSummarize(i, <<KV("s", Agg("sum", Col(x)))>>)>> ELSE <<>>)
 
 ---------------------------------------------------------------------------
+(* the union of the single-table alphabets, for seeded simulation at depths BFS cannot reach *)
+MovesMix(h, kn) == MovesWinS(h, kn) \o MovesAgg(h, kn) \o Take(MovesWin(h, kn), 12)
+
+---------------------------------------------------------------------------
 (* a pending grouping carried across a subquery boundary: group_by, a verb that forces a subquery, summarize / window *)
 MovesGS(h, kn) ==
     LET i  == Len(h)
